@@ -2,12 +2,12 @@
 # Cross false-alarm test: every benign change under /verif/benign applied in a scratch worktree, every registered check run against it
 # (reduced number of plans: VERIF_RUNS, default 400). Output: /tmp/wip/benign_matrix.txt, one line per (change, check): exit code.
 # usage: tools/benign_matrix.sh [parallel jobs, default 3]
-jobs=${1:-3}; out=/tmp/wip/benign_matrix.txt; mkdir -p /tmp/wip /tmp/sv; : > $out
+jobs=${1:-3}; out=/tmp/wip/benign_matrix.txt; mkdir -p /tmp/wip /tmp/sv; [ -n "$BENIGN$CHECKS" ] || : > $out
 run_one() {
   d=$1; b=$(basename $d); wt=/tmp/sv/bm_$b
   git -C /repo worktree add -q --detach $wt HEAD || exit 9
   if ! git -C $wt apply $d/patch.diff 2>/dev/null; then echo "$b PATCH-DOES-NOT-APPLY" >> /tmp/wip/benign_matrix.txt; git -C /repo worktree remove --force $wt; return; fi
-  for p in C03 C08 C09 C10 C12 C13 C14 C15 C18 C20; do
+  for p in ${CHECKS:-C03 C08 C09 C10 C12 C13 C14 C15 C18 C20}; do
     o=/tmp/sv/bmo_${b}_$p; mkdir -p $o
     (cd /verif && VERIF_EVIDENCE_DIR=$o VERIF_REPLAY_DIR=$o VERIF_REPO=$wt VERIF_WORKERS=4 VERIF_RUNS=${VERIF_RUNS:-400} timeout 1200 /venv/bin/python run_check.py $p --tier quick > $o/log 2>&1; echo "$b $p exit=$? $(grep -E 'VIOLATION|HARNESS' $o/log | head -2 | cut -c1-300 | tr '\n' ' ')" >> /tmp/wip/benign_matrix.txt)
     if ! grep -q "exit=0" <(tail -1 /tmp/wip/benign_matrix.txt); then mkdir -p /tmp/wip/bm_keep; cp $o/log /tmp/wip/bm_keep/${b}_$p.log; fi
@@ -16,5 +16,6 @@ run_one() {
   git -C /repo worktree remove --force $wt
 }
 export -f run_one
-ls -d /verif/benign/C* | xargs -P $jobs -I{} bash -c 'run_one {}'
+# BENIGN="C15-b1 C14-b1" restricts the changes, CHECKS="C08 C10" the checks
+(if [ -n "$BENIGN" ]; then for b in $BENIGN; do echo /verif/benign/$b; done; else ls -d /verif/benign/C*; fi) | xargs -P $jobs -I{} bash -c 'run_one {}'
 sort $out | grep -v "exit=0" ; echo "clean: $(grep -c 'exit=0' $out) / $(wc -l < $out)"
